@@ -137,8 +137,30 @@ static int op_add(int argc, tok_t *a, out_t *o) {
   return 0;
 }
 
+/* as7_mul_2exp / as7_div_2exp m prec neg exp [u] k */
+static int op_2exp(int argc, tok_t *a, out_t *o, int div) {
+  NEED(argc == 6 && ISNUM(0) && prec_ok(&a[1]) && opnd_ok(&a[2], &a[3], &a[4]) && ISUI(5));
+  long m = tok_long(&a[0]), prec = tok_long(&a[1]); NEED(m == 0 || m == 1);
+  unsigned long k = tok_ulong(&a[5]); NEED(k < (1UL << 32));
+  fobj r, u;
+  if (m == 0) {
+    f_make(&r, prec, 0, 0, NULL, prec + 1); f_make(&u, 0, (int) tok_long(&a[2]), tok_long(&a[3]), &a[4], 1);
+    int us = u.f._mp_size; long ue = u.f._mp_exp;
+    if (div) mpf_div_2exp(&r.f, &u.f, k); else mpf_mul_2exp(&r.f, &u.f, k);
+    if (!f_same(&u, us, ue)) out_err(o, "opchanged"); else f_out(o, &r);
+    f_free(&u);
+  } else {
+    f_make(&r, prec, (int) tok_long(&a[2]), tok_long(&a[3]), &a[4], prec + 1);
+    if (div) mpf_div_2exp(&r.f, &r.f, k); else mpf_mul_2exp(&r.f, &r.f, k);
+    f_out(o, &r);
+  }
+  f_free(&r); return 0;
+}
+static int op_mul_2exp(int argc, tok_t *a, out_t *o) { return op_2exp(argc, a, o, 0); }
+static int op_div_2exp(int argc, tok_t *a, out_t *o) { return op_2exp(argc, a, o, 1); }
+
 const opdef_t ops_allocsafe7[] = {
   {"as7_set", op_set}, {"as7_set_ui", op_set_ui}, {"as7_set_si", op_set_si}, {"as7_set_z", op_set_z},
-  {"as7_mul_ui", op_mul_ui}, {"as7_add", op_add},
+  {"as7_mul_ui", op_mul_ui}, {"as7_add", op_add}, {"as7_mul_2exp", op_mul_2exp}, {"as7_div_2exp", op_div_2exp},
   {0, 0}
 };
